@@ -1123,8 +1123,12 @@ def c13(run):
     r, path, n, rej = run.trace_leg("run", ["machine", "kind=run"], verdict=CONF + ["nsteps", "pause"])
     run.trace_leg("segments", ["machine", "kind=run"], spec="TV_Pairs", cfg="TV_Pairs.cfg",
                   verdict=PAIRV + ["final-differs"], expect_all=False, path=path)
+    run.rp_leg("rp_run", "MC_RunRP", "MC_RunRP3.cfg" if run.tier == "thorough" else "MC_RunRP2.cfg", "run", "MC_RunRP_ops.ndjson",
+               verdict=CONF + ["nsteps", "pause", "trap-halt"], workers=8)
     return run.finish(
-        rule="programs with calls, traps and loops; random sequences of run / run_with_limit / step_over / step_out / "
+        rule="RP: every maximal behaviour of MC_Run with up to 2 (thorough: 3) free run-style calls (three breakpoint sets x "
+             "eight calls, then run until halted: 185 / 1 500 behaviours) is printed by TLC, replayed on the real simulator "
+             "and every recorded call validated against Run!RunCall.  TV: programs with calls, traps and loops; random sequences of run / run_with_limit / step_over / step_out / "
              "run_while(pc != a) / step_in with PC, register and memory breakpoints, step limits, MCR cleared by another "
              "party at a chosen poll, scripted vectored and external interrupts, exact timers; each call is validated by "
              "TLC against Run!RunCall = Machine!StepF iterated up to the first boundary where a documented stop "
